@@ -755,6 +755,7 @@ func main() {
 	}
 
 	out := vc.NewOut()
+	out.Samples = []string{} // never null in the stats file, also when a replay has no case for this mode
 	results := make([][]string, len(lines))
 	workers := 16
 	if *mode == "conc" {
